@@ -142,8 +142,13 @@ class Server(object):
                 pass
             except socket.error:
                 ex = sys.exc_info()[1]
-                if get_exc_errno(ex) in (errno.EINTR, errno.EAGAIN):
+                if get_exc_errno(ex) in (errno.EINTR, errno.EAGAIN, errno.ECONNABORTED):
                     pass
+                elif get_exc_errno(ex) in (errno.EMFILE, errno.ENFILE, errno.ENOBUFS, errno.ENOMEM):
+                    # out of descriptors or buffers (e.g. too many clients): not a reason to stop
+                    # serving; keep the clients we have and try again shortly
+                    self.logger.warning("accept failed (%s), retrying", ex)
+                    time.sleep(0.1)
                 else:
                     raise EOFError()
             else:
